@@ -342,14 +342,14 @@ def _gen_pok_only(K):
 def plan(tier):
     if tier == 'quick':
         return [
-            dict(name='signature-K2', fn='h_signature', depth=9, budget_s=300, cfg=dict(K=2),
+            dict(name='signature-K2', fn='h_signature', depth=9, budget_s=600, cfg=dict(K=2),
                  bounds='functions with <=2 named parameters x 6 decorator forms x every selection over parameter names plus one star/unknown name; symbolic defaults; with/without annotations',
                  min_nontrivial=500, must_reach=['advertised-structure', 'ValueError-only-if-inadmissible',
                                                  'inadmissible-raises-ValueError', 'default-preserved']),
             dict(name='call-K2-direct', fn='h_call', depth=9, budget_s=300, cfg=dict(K=2, forms=['both'], bound='direct'),
                  bounds='functions with <=2 named parameters x every admissible kwoargs/posoargs assignment (both stacking orders) x direct calls with n<=len+2, every keyword subset incl. foreign; symbolic values',
                  min_nontrivial=500, must_reach=['accepts-iff-signature-accepts', 'routes-values-like-signature']),
-            dict(name='call-2pok-bound', fn='h_call', depth=8, budget_s=300, cfg=dict(K=2, pok_only=True, bound='bound'),
+            dict(name='call-2pok-bound', fn='h_call', depth=8, budget_s=600, cfg=dict(K=2, pok_only=True, bound='bound'),
                  bounds='methods with exactly 2 positional-or-keyword parameters x all 6 decorator forms x calls on the bound method; symbolic values',
                  min_nontrivial=200, must_reach=['binding-removes-first-parameter']),
         ]
